@@ -293,6 +293,9 @@ def state_types(sc) -> tuple[dict, dict, dict]:
     if ibm.get("weight"):
         ivars["weight"] = "float"
         defaults["weight"] = 0.0
+    if ibm.get("dose"):
+        ivars["dose"] = "float"
+        defaults["dose"] = 0.0
     for name in truth.scalar_names(sc):
         # LADiM copies every extra forcing variable into the state: it has to be declared there
         if name not in ivars:
